@@ -8,7 +8,8 @@ from . import core
 from .c06 import gen_library
 from .core import cq_bool, cq_list, cq_nat
 
-THEOREMS = ["C05_frame", "C05_sequences", "C05_lookup_copy", "C05_refuted", "C05_example"]
+THEOREMS = ["C05_frame", "C05_neutral", "C05_memo_transparent", "C05_sequences", "C05_lookup_copy",
+            "C05_refuted", "C05_example"]
 KINDS = ["WImportMemo", "WConstSym", "WArgHook", "WOther"]
 
 
@@ -248,6 +249,10 @@ def run(ctx):
     for i in range(n_cli_casadi):
         cases.append(gen_casadi_cli(ctx.rng, i))
     n_cli += n_cli_casadi
+    # lookup model: real _find_class (with the import memo being written) vs Model/C05_frame.v `find`
+    for i in range(ctx.scaled(10, 80)):
+        text = gen_import_library(ctx.rng)[0] if i % 2 == 0 else gen_library(ctx.rng)["text"]
+        cases.append({"kind": "find", "text": text, "seed": ctx.rng.randrange(1 << 30), "max": ctx.scaled(30, 60)})
     try:
         corpus = json.load(open(core.VERIF + "/corpus/C05/cases.json"))
     except OSError:
@@ -271,6 +276,8 @@ def run(ctx):
     nontrivial = set()
     kinds_count = {}
     for c, o in zip(cases, outs):
+        if c["kind"] == "find":
+            continue
         if c["kind"] == "cli":
             if "joint" not in o:
                 core.violation(ctx, "impl-violation", {"case": c, "why": "compiler.main could not be run: %s" % o})
@@ -321,6 +328,45 @@ def run(ctx):
                        {"correspondence": "Model/C05_frame.v check_case vs snapshot diff of the parsed tree",
                         "case": {"kind": "lib", "text": cases[meta[j][0]]["text"], "seqs": [[meta[j][1]]], "snap": 1},
                         "writes": meta[j][2][:10]}, no_input=True)
+    # (c) correspondence: the lookup model (`find`: own classes, import memo, unqualified imports, parent) vs
+    #     the real _find_class, and soundness of every memo the real code wrote
+    fenc, fmeta = [], []
+    n_find_q = n_memo_states = 0
+    for ci, (c, o) in enumerate(zip(cases, outs)):
+        if c["kind"] != "find" or "queries" not in (o or {}):
+            continue
+        nm = Names()
+
+        def pth(p):
+            return cq_list([cq_nat(nm("c:" + x)) for x in p])
+        groups = []
+        for q in o["queries"]:
+            key = json.dumps(q["xm"])
+            if not groups or groups[-1][0] != key:
+                groups.append((key, q["xm"], []))
+            groups[-1][2].append(q)
+        for key, xm, qs in groups:
+            n_memo_states += any(e[2] for e in xm)
+            xenc = cq_list(["(%s, Ext %s %s [] false)" % (pth(e[0]), cq_list([pth(s) for s in e[1]]),
+                                                          cq_list(["(%s, %s)" % (cq_nat(nm("c:" + k)), pth(v)) for k, v in e[2]]))
+                            for e in xm])
+            qenc = cq_list(["(%s, %s, %s)" % (cq_list([cq_nat(nm("c:" + x)) for x in reversed(q["p"])]), cq_nat(nm("c:" + q["k"])),
+                                              "None" if q["res"] is None else "(Some %s)" % pth(q["res"])) for q in qs])
+            fenc.append("(%s, %s, %s)" % (cq_list([pth(p) for p in o["paths"]]), xenc, qenc))
+            fmeta.append((ci, qs[0]))
+            n_find_q += len(qs)
+    fbad = core.coq_eval_cases(ctx, "find", "From PV Require Import Lib.ObjGraph Model.C05_frame.\nImport ListNotations.\n",
+                               "list path * xmap * list (list key * key * option path)", fenc, "check_find", shard=150)
+    ctx.oblige("correspondence:lookup-model-vs-_find_class-with-import-memo", fbad == [],
+               "mismatching groups: %s" % (None if fbad is None else [(fmeta[j][1]["p"], fmeta[j][1]["k"], fmeta[j][1]["res"],
+                                                                           fmeta[j][1]["xm"]) for j in fbad[:3]]))
+    if fbad and not ctx.violations:
+        j = fbad[0]
+        core.violation(ctx, "correspondence-broken",
+                       {"correspondence": "Model/C05_frame.v check_find vs Class._find_class",
+                        "case": cases[fmeta[j][0]], "first_query": fmeta[j][1]}, no_input=True)
+    ctx.notes["lookup_correspondence"] = {"queries": n_find_q, "groups": len(fenc), "groups_with_memo": n_memo_states}
+
     def still_fails(e):
         case = (e.get("replay") or {}).get("case")
         if not case:
@@ -361,6 +407,9 @@ def replay(ctx, path):
         print("replay: no concrete input in this record")
         return 1
     out = core.run_child(ctx, "c05", [case])[0]
+    if case["kind"] == "find":
+        print("replay: lookup-model case; re-run ./check C05 to evaluate it against the model")
+        return 1
     if case["kind"] == "cli":
         why = None if ("joint" in out and out["joint"] == sum(out["separate"])) else "joint %s vs separate %s" % (out.get("joint"), out.get("separate"))
     else:
